@@ -54,6 +54,9 @@ def _gen_slicer(S, n_rows):
     kind = S.wpick([("width", 3), ("number", 3), ("points", 4)])
     k = S.int(3, 7)  # target number of intervals
     sp = {"kind": kind, "min_n_points": S.pick([10, 20, 30, 50]), "min_n_intervals": 2 if k <= 4 else S.pick([2, 3])}
+    if kind == "number" and S.chance(0.15):
+        # leave the description's 'intervals' key out: default slicer NumberOfIntervalsSlicer(10)
+        return {"kind": "number", "default": True, "n_intervals": 10, "reference": "center", "include_max": True, "min_n_points": 50, "min_n_intervals": 3}
     if kind == "width":
         sp["n_target"] = k
         if S.chance(0.4):
@@ -120,6 +123,7 @@ def generate(prop, seed, tier):
             "order": S.pick(["asdrawn", "sorted0", "shuffled"]),
             "scale": core.r6(S.pick([1.0, 1.0, 1.3, 0.8])),
             "twin_perm": S.sub("perm", k) if k == twin_step else None,
+            "container": S.wpick([("ndarray", 4), ("list", 1), ("dataframe", 2), ("fortran", 1)]),
             "fault": None,
         }
         steps.append(st)
@@ -264,6 +268,8 @@ def build_model(scen, width_hint):
     descs = []
     for i, d in enumerate(scen["dims"]):
         desc = {"distribution": make_template(d), "intervals": make_slicer(scen["slicers"][i], width_hint[i])}
+        if scen["slicers"][i].get("default"):
+            del desc["intervals"]  # the model's documented default: NumberOfIntervalsSlicer(n_intervals=10)
         if d["cond_on"] is not None:
             desc["conditional_on"] = d["cond_on"]
             desc["parameters"] = make_deps(d["deps"])
@@ -469,7 +475,13 @@ def check_twins(run, scen, A, B, step):
                     # linear shapes: stable solution; nonlinear 3-parameter shapes on a handful of
                     # pairs amplify the 1e-16 summation-order noise of the estimates (seen: exp3 with
                     # b = 1.3e9, c = -8.1 vs b = 1.2e9, c = -8.07), so only gross disagreement counts
-                    tol = 1e-6 if d["deps"][p]["shape"] in ("poly1", "scaled1") else 1e-3
+                    tol = {"poly1": 1e-6, "scaled1": 1e-6}.get(d["deps"][p]["shape"], 1e-3)
+                    if d["deps"][p]["shape"] == "scaled1":
+                        # k*d(x)+e on a nearly constant conditioner d is ill-conditioned (seen: k = -193, e = 60):
+                        # the optimiser's 1e-8 relative parameter tolerance is amplified by (|k||d|+|e|)/scale
+                        k_, e_ = [float(v) for v in da.conditional_parameters[p].parameters.values()]
+                        dmax = float(np.max(np.abs(np.asarray(da.conditional_parameters[d["deps"][p]["cond"]](cv), dtype=float))))
+                        tol = max(tol, 1e-6 * (abs(k_) * dmax + abs(e_)) / sc)
                     if float(np.max(np.abs(a - b))) / sc > tol:
                         run.violate("O4-row-order-invariance", f"dependence/{d['deps'][p]['shape']}", {"dim": i, "param": p, "a": [float(v) for v in da.conditional_parameters[p].parameters.values()], "b": [float(v) for v in db.conditional_parameters[p].parameters.values()], "step": step})
                         return
@@ -478,6 +490,19 @@ def check_twins(run, scen, A, B, step):
 # --------------------------------------------------------------------------
 # execution
 # --------------------------------------------------------------------------
+
+
+def _as_container(D, kind):
+    """the same rows in the container types a caller may pass (tests and docs pass DataFrames)"""
+    if kind == "list":
+        return D.tolist()
+    if kind == "dataframe":
+        import pandas as pd
+
+        return pd.DataFrame(D, columns=[f"v{i}" for i in range(D.shape[1])])
+    if kind == "fortran":
+        return np.asfortranarray(D)
+    return D.copy()
 
 
 def _snapshot_params(model, scen):
@@ -530,7 +555,7 @@ def execute(prop, scen):
             seams.pin_global(core.h64(scen["seed"], si))
             with seams.OptimiserShim(fail_at=fail_at) as shim:
                 try:
-                    A.fit(D.copy(), copy.deepcopy(fit_desc_of(scen)))
+                    A.fit(_as_container(D, st.get("container", "ndarray")), copy.deepcopy(fit_desc_of(scen)))
                 except Exception as e:  # noqa: BLE001
                     excA = e
             firedA = shim.fired
